@@ -32,6 +32,7 @@ import Driver.Ev.SyncX
 import Driver.Ev.DelayQ
 import Driver.Ev.CLQ
 import Driver.Ev.LockWrapped
+import Driver.Ev.Pool
 
 namespace Driver.EvTrace
 open Driver Driver.Ev
@@ -50,6 +51,7 @@ inductive St where
   | clist (s : Driver.Ev.CList.State)
   | cow (s : Driver.Ev.Cow.State)
   | cpq (s : Driver.Ev.CPQ.State)
+  | pool (s : Driver.Ev.Pool.State)
 
 def liftE {σ} (wrap : σ → St) (r : Except String σ) : St × Option String :=
   match r with
@@ -69,6 +71,7 @@ def start (tgt : String) (args : List String) : St × Option String :=
   | "clist" => liftE .clist (CList.init args)
   | "cow" => liftE .cow (Cow.init args)
   | "cpq" => liftE .cpq (CPQ.init args)
+  | "pool" => liftE .pool (Pool.init args)
   | _ => (.dead, some s!"unknown target {tgt}")
 
 /-- one event of thread `t` -/
@@ -107,6 +110,17 @@ def event (st : St) (t : Nat) (what : String) (args : List String) (obs : String
   | .cpq s =>
     if what = "inv" then liftE .cpq (CPQ.invL s t args) else if what = "res" then liftE .cpq (CPQ.resL s t args)
     else liftE .cpq (CPQ.sync s t fn act obs)
+  | .pool s =>
+    if what = "inv" then liftE .pool (Pool.invL s t args) else if what = "res" then liftE .pool (Pool.resL s t args)
+    else liftE .pool (Pool.sync s t fn act obs)
+
+/-- an event of a goroutine the harness did not start (the task pool's workers are created inside the library):
+    only targets that model such goroutines take it -/
+def eventG (st : St) (gid : String) (what : String) (obs : String) : Option (St × Option String) :=
+  let (fn, act) := splitSite what
+  match st with
+  | .pool s => some (liftE .pool (Pool.syncG s gid fn act obs))
+  | _ => none
 
 def finish : St → Option String
   | .abq s => ABQ.atEnd s
@@ -119,6 +133,7 @@ def finish : St → Option String
   | .clist s => CList.atEnd s
   | .cow s => Cow.atEnd s
   | .cpq s => CPQ.atEnd s
+  | .pool s => Pool.atEnd s
   | _ => none
 
 def checker (model : Bool) : Checker where
@@ -137,7 +152,10 @@ def checker (model : Bool) : Checker where
       | .dead, _ => (.dead, none)
       | _, none =>
         -- the constructor runs on the harness's own goroutine before the threads start: the model's `init`
-        if what.startsWith "New" then (st, none) else (.dead, some s!"event of an unregistered goroutine: {op}")
+        if what.startsWith "New" then (st, none) else
+        match eventG st tid what obs with
+        | some r => r
+        | none => (.dead, some s!"event of an unregistered goroutine: {op}")
       | _, some t => event st t what args obs
     | _ => (st, some s!"bad-op {op}")
 
